@@ -1,14 +1,21 @@
 """C05 - Property values always conform to the Property's dtype, in normal form"""
-from props.common import bj
+from props.common import bj, pure
 
-LEVEL = 'exploration'
-CONTRACT_MODULES = []
-DEDUCTIVE = []
-EXPLANATION = ('bounded stand-in: the value-operation contracts (every stored value has the Python type of the dtype; refused input '
+LEVEL = 'other'
+CONTRACT_MODULES = ['contracts.c_dtypes']
+DEDUCTIVE = ['odml/dtypes.py::boolean_get', 'odml/dtypes.py::int_get', 'odml/dtypes.py::float_get',
+             'odml/dtypes.py::str_get', 'odml/dtypes.py::valid_type']
+TIMEOUT_S = 15
+EXPLANATION = ('deductive (pure mode): the converters boolean_get / int_get / float_get / str_get return a value of the Python type '
+               'of their dtype for every input or raise only ValueError/TypeError/OverflowError; valid_type accepts None and the ten '
+               'canonical names and nothing else among lower-case names except the str/bool shorthands. Bounded stand-in: the value-operation contracts (every stored value has the Python type of the dtype; refused input '
                'raises ValueError and leaves values and dtype unchanged; dtype= converts all or nothing; normal form) checked at run '
                'time on the real Property over all dtypes x value kinds x operation sequences of length <= 2 (thorough 3)')
 BOUNDED_TIMEOUT = 3000
 
 
 def bounded_jobs(tier, seed):
-    return [bj('rcc.b_values', 'run_values', tier, seed)]
+    return [bj('rcc.b_values', 'run_values', tier, seed)] + [
+        pure('odml/dtypes.py::%s' % f, 'contracts.c_dtypes', 'gen_values', tier, seed)
+        for f in ('boolean_get', 'int_get', 'float_get', 'str_get')] + [
+        pure('odml/dtypes.py::valid_type', 'contracts.c_dtypes', 'gen_dtypes', tier, seed)]
